@@ -1316,9 +1316,20 @@ class FnEmit:
         if slot is not None and not em.opts.no_devirt:
             # virtual call: dispatch over the functions that occupy this slot in some vtable of the module (CBMC would otherwise try
             # every function with a compatible C signature - with all-char* signatures that is nearly every function, recursively)
+            def base_name(t):
+                n = getattr(t, 'name', None) or ''
+                return re.sub(r'\.base(\.\d+)?"?$', lambda m: '"' if m.group(0).endswith('"') else '', n)
+            def derives(ct, bt, depth=0):
+                # class ct is bt or has bt as a (transitive) base sub-object: LLVM lays bases out as leading struct fields
+                if not isinstance(ct, StructTy) or not isinstance(bt, StructTy): return True      # cannot tell: keep the candidate
+                if base_name(ct) == base_name(bt): return True
+                if depth > 6 or ct.opaque: return False
+                return any(isinstance(f, StructTy) and derives(f, bt, depth + 1) for f in ct.fields)
+            this_t = I.args[0].ty.to if I.args and isinstance(I.args[0].ty, PtrTy) else None
             def compatible(fn):
                 f = em.mod.funcs[fn]
                 if len(f.params) != len(I.args) or f.vararg: return False
+                if this_t is not None and f.params and isinstance(f.params[0][0], PtrTy) and not derives(f.params[0][0].to, this_t): return False
                 try:
                     if em.cty(f.ret) != em.cty(I.ty): return False
                     return [em.cty(t) for t, _ in f.params] == [em.cty(a.ty) for a in I.args]
